@@ -216,8 +216,9 @@ func vC42_consumerStep(kind int) {
 	vRD_reset()
 	cons, self, pc, other := vRD_pid("c"), vRD_pid("s"), vRD_pid("p"), vRD_pid("o")
 	x := &consumerController{consumer: cons, producerName: "producer", resendInterval: time.Second, generation: 1}
+	maxWindow := vCase("maxWindow") // 4 in the quick tier, 5 in the thorough tier
 	x.window = vNondetInt("window")
-	vAssume(x.window >= 1 && x.window <= 4)
+	vAssume(x.window >= 1 && x.window <= maxWindow)
 	if vNondetBool("resolved") {
 		x.producerController = pc
 		x.registrationNonce = "N"
@@ -238,7 +239,7 @@ func vC42_consumerStep(kind int) {
 	x.buffer = make([]*commands.SequencedMessage, 0, 6)
 	for i := 0; i < nbuf; i++ {
 		off := vNondetInt64("bufOffset")
-		vAssume(off >= 1 && off <= 4)
+		vAssume(off >= 1 && off <= int64(maxWindow))
 		x.buffer = append(x.buffer, vC42_sequencedP(x.expectedSeq+off))
 	}
 	if vNondetBool("inFlight") {
